@@ -6,6 +6,10 @@ props = [json.loads(l) for l in open(os.path.join(V, "properties.jsonl"))]
 ids = [p["id"] for p in props]
 
 CLAIMS = {
+ "C14": dict(cat="other", tech="witness translation unit instantiating every port macro x field type; typed-AST shape rules on each generated callback; finite-domain evaluation of the clamp statements; OSC-format rule with the va_arg table extracted from rtosc_v2args",
+    text="Quantifies over programs: every callback-producing macro of port-sugar.h is expanded over the field types it is used with (41 callbacks) and each expansion must satisfy: format/argument type agreement for every literal type string; a pure query branch answering at data.loc; incoming value read from the union member of the port's tag; clamp statements that, evaluated over values around the bounds in all four min/max presence configurations, compute clamp(v,min,max) with atoi/atof matching the variable type, before the single store, before the broadcast; exactly one correctly shaped /undo_change for numeric/option kinds and none for toggles/strings; array kinds index with one variable parsed from the address. A wrong cast or bound in one macro kind (e.g. floats only) is reported at that kind.",
+    note="Trusted: clang AST of the expansions, sa/fdeval.py, the witness matrix (witness/gen_matrix.py). Does not decide option symbol lookup (enum_key) or arithmetic on particular values beyond the evaluated clamp table.",
+    ref="DESIGN.md 2 C14"),
  "C07": dict(cat="other", tech="AST shape rules (deref-only access, guarded subscripts, bounded returns), IR taint analysis of lengths assembled from buffer bytes with dominance of bounding comparisons, IR dominance of byte reads by len comparisons, validator/reader table agreement",
     text="Decides, for every byte buffer, the structural soundness conditions of rtosc_message_length / rtosc_valid_message_p: ring memory is read only through the bounds-checked deref(); each subscript in deref() is under its own bound test; every returned non-zero length was tested against the available bytes; a length decoded from the buffer enters position arithmetic only after an upper-bound comparison (otherwise 32-bit wrap defeats the final bound - the defect class found and fixed here); rtosc_valid_message_p reads msg bytes only under a strict counter<len (or len!=0 for msg[0]) edge; and the validator accounts per tag for exactly what arg_size/extract_arg consume. It does not decide agreement with an independent decoder on values.",
     note="Trusted: clang AST/-O0 IR, sa/rules/taint.py (flow-insensitive on stack slots, arithmetic does not propagate taint), sa/irlib.py dominators. R07.5 is a necessary condition only.",
